@@ -479,7 +479,13 @@ def decompress_destripe_cbin(
     # creates a saturation memmap, this is a nsamples vector of booleans: the batches label their saturated
     # samples in it whether or not the rms is computed
     file_saturation = output_file.parent.joinpath("_iblqc_ephysSaturation.samples.npy")
-    np.save(file_saturation, np.zeros(sr.ns, dtype=bool))
+    if append and file_saturation.exists():
+        # the samples of this run come after those of the runs already in the output file
+        saturation_offset = np.load(file_saturation, mmap_mode="r").size
+        np.save(file_saturation, np.r_[np.load(file_saturation), np.zeros(sr.ns, dtype=bool)])
+    else:
+        saturation_offset = 0
+        np.save(file_saturation, np.zeros(sr.ns, dtype=bool))
     # if we want to compute the rms ap across the session as well as the saturation
     if compute_rms:
         # creates the place holders for the rms
@@ -554,7 +560,7 @@ def decompress_destripe_cbin(
             chunk = _sr[first_s:last_s, :ncv].T
             saturated_samples, mute_saturation = saturation(
                 data=chunk, max_voltage=_sr.range_volts[:ncv], fs=_sr.fs)
-            _saturation[first_s:last_s] = saturated_samples
+            _saturation[saturation_offset + first_s:saturation_offset + last_s] = saturated_samples
             chunk[:, :SAMPLES_TAPER] *= taper[:SAMPLES_TAPER]
             chunk[:, -SAMPLES_TAPER:] *= taper[SAMPLES_TAPER:]
             # Apply filters
